@@ -323,3 +323,39 @@ Qed.
 
 Lemma init_reach : wf (cs_store cinit) /\ counts_nonneg (cs_store cinit).
 Proof. split; constructor. Qed.
+
+(* ------------------------------------------------------------------ *)
+(* life time of a code *)
+
+(* the code as it is never looks at the clock in Authenticate: a code stays valid
+   until some later GenSecret (for any credential) collects it *)
+Definition code_expiry_statement : Prop :=
+  forall cfg st secret st' uid cred code,
+  wf (cs_store st) -> split_colon secret = Some (code, cred) ->
+  cstep cfg st (CAuth secret) = (st', CAuthOk uid cred) ->
+  exists e, cget (key_of_cred cred) (cs_store st) = Some e /\ cs_now st - cc_lifetime cfg <= ce_created e.
+
+Lemma code_expiry_refuted : ~ code_expiry_statement.
+Proof.
+  intros H.
+  set (cfg := mkCC 3 10000000000).
+  set (st := fst (crun cfg cinit [CGen [97%N] 9%N 0 [49%N; 50%N]; CAdv 24000000000])).
+  destruct (H cfg st [49%N; 50%N; 58%N; 97%N] (mkCS [] 24000000000) 9%N [97%N] [49%N; 50%N]) as (e & G & L).
+  - repeat constructor. intros [].
+  - reflexivity.
+  - reflexivity.
+  - vm_compute in G. injection G as <-. vm_compute in L. apply L. reflexivity.
+Qed.
+
+Lemma code_expiry_fixed cfg st secret st' uid cred code :
+  wf (cs_store st) -> split_colon secret = Some (code, cred) ->
+  cstep_fixed cfg st (CAuth secret) = (st', CAuthOk uid cred) ->
+  exists e, cget (key_of_cred cred) (cs_store st) = Some e /\ cs_now st - cc_lifetime cfg <= ce_created e.
+Proof.
+  intros W S. cbn [cstep_fixed cstep cs_store cs_now]. rewrite S.
+  unfold cexpire. rewrite cget_filter by exact W.
+  destruct (cget (key_of_cred cred) (cs_store st)) as [e|]; [|intros [= _ H]; discriminate].
+  cbn [snd]. destruct (ce_created e <? cs_now st - cc_lifetime cfg) eqn:E; cbn [negb];
+    [intros [= _ H]; discriminate|].
+  intros _. exists e. split; [reflexivity|lia].
+Qed.
